@@ -18,6 +18,7 @@ EXPLANATION = (
     "parses the right operand at precedence(op).next(); (UNARY) the operand of unary `-`/`not` is parsed at Factor, i.e. "
     "tighter than + - comparisons and boolean operators, looser than call/index/field; (SETS) the operator sets of infix, "
     "valid_infix and precedence agree; (PARENS) a parenthesised expression resolves to its content (no node is left)."
+    " (SETS all-have-a-level) every token that can continue an expression (`(`, `[`, `.`, `'`, `->`, the operators) has a precedence level."
 )
 UNDECIDED = "`evaluates to the same value` beyond what the operator pipeline (C01) gives."
 
